@@ -355,8 +355,17 @@ def h6(ctx, rid):
                 ctx.ok(rid, key, c.where(), 'monotonic (fetch_max) during exclusive initialisation')
                 continue
             stores.append((f, c, key))
+    def deep_arith(f, operand, depth=3):
+        out = []
+        for o in core.origins_deep(prog, f, operand, depth=3):
+            if o.kind == 'binop' and depth > 0:
+                for side in ('a', 'b'):
+                    out += deep_arith(o.fn, o.data[side], depth - 1)
+            else:
+                out.append(o)
+        return out
     for (f, c, key) in stores:
-        ogs = core.origins_deep(prog, f, c.args[1], depth=3)
+        ogs = deep_arith(f, c.args[1])
         calls = [o.data for o in ogs if o.kind == 'call']
         from_failed = [x for x in calls if x.target == 'blob::file_name::FileName::id' and 'read_blobs' in x.fn.id]
         from_opened = [x for x in calls if x.target == 'blob::core::Blob::<K>::id']
@@ -427,8 +436,31 @@ def h6(ctx, rid):
                 ctx.bad(rid, key + '|joined-by-max', c2.where(), 'two sources of blob ids are combined with `%s` on the way into the id counter: it prefers one source instead of taking the maximum, so an id that is in use (in the work dir or in the quarantine dir) can be handed out again' % c2.name)
                 break
         else:
-            if any(c2.name == 'max' and dst in core.flows_forward(f, c2.dest[0]) for c2 in f.calls):
+            # every definition of the stored value passes through the join: with `max` opaque, the only id-carrying terminals of
+            # the stored value are max(..) calls over >= 2 id sources (a `match` that picks one source on some path is a selector too)
+            saved = {k: core.TRANSPARENT_CALLS.pop(k) for k in ('max', 'max_by', 'max_by_key') if k in core.TRANSPARENT_CALLS}
+            try:
+                term = core.origins(f, c.args[1])
+            finally:
+                core.TRANSPARENT_CALLS.update(saved)
+            joins = [o for o in term if o.kind == 'call' and o.data.name == 'max']
+            direct = []
+            for o in term:
+                if o.kind == 'call' and o.data.name != 'max':
+                    sub = core.origins_deep(prog, f, o.data.dest[0], depth=3) + [o]
+                    if any(x.kind == 'call' and x.data.target in ID_TARGETS for x in sub):
+                        direct.append(o)
+            if joins and not direct:
+                ctx.ok(rid, key + '|joined-by-max', c.where(), 'id sources joined with max on every path', nontrivial=False)
+            elif joins and direct:
+                ctx.bad(rid, key + '|joined-by-max', c.where(), 'on some path the id counter is stored from one id source alone (%s), bypassing the maximum over all sources: an id that is in use in the other place (work dir / quarantine dir) can be handed out again' % direct[0].data.name)
+            elif any(c2.name == 'max' and dst in core.flows_forward(f, c2.dest[0]) for c2 in f.calls):
                 ctx.ok(rid, key + '|joined-by-max', c.where(), 'id sources joined with max', nontrivial=False)
+            else:
+                allo = deep_arith(f, c.args[1])
+                srcs = {('quarantine' if 'corrupted' in o.data.fn.id else 'workdir') for o in allo if o.kind == 'call' and o.data.target in ID_TARGETS}
+                if len(srcs) >= 2:
+                    ctx.bad(rid, key + '|joined-by-max', c.where(), 'ids of the work dir and of the quarantine dir both feed the id counter but are not joined by a maximum: one of them is ignored on some path, and an id that is in use there can be handed out again')
     if n < 3:
         raise core.AnchorLost('next_blob_id uses: %d' % n)
 
@@ -562,12 +594,41 @@ def h9(ctx, rid):
     c16.w3(ctx, rid)
 
 
+def h10(ctx, rid):
+    """one process at a time: every file of the io layer - created or re-opened - takes the exclusive advisory lock (F_WRLCK).
+    Re-opened blobs are written too (the newest blob becomes the active blob again); with a shared lock two processes both
+    restore it as active and overwrite each other\'s appends."""
+    prog = ctx.prog
+    n = 0
+    for f in prog.fns.values():
+        if not f.file.startswith('src/io/unix/'):
+            continue
+        for i, b in enumerate(f.blocks):
+            if b['c'] or i not in f.reachable():
+                continue
+            for st in b['s']:
+                if st['k'] == 'a' and st['r']['k'] == 'agg' and (st['r'].get('adt') or '').endswith('flock') and 'l_type' in st['r'].get('fields', []):
+                    n += 1
+                    op = st['r']['ops'][st['r']['fields'].index('l_type')]
+                    lv = core.scalar_leaves(prog, f, op, depth=0)
+                    vals = {v for k, v in lv if k == 'const'}
+                    other = {x for x in lv if x[0] != 'const'}
+                    key = 'exclusive-file-lock|%s' % prog.fns[f.id].root
+                    if vals == {1} and not other:
+                        ctx.ok(rid, key, f.where(i), 'l_type = F_WRLCK')
+                    else:
+                        ctx.bad(rid, key, f.where(i), 'the advisory lock type is not the constant F_WRLCK (%s): some files are opened with a shared or no lock, and a second process can open and write a blob that this process writes' % sorted(str(x) for x in (vals | other)))
+    if n < 1:
+        raise core.AnchorLost('flock constructions in src/io/unix: %d' % n)
+
+
 RULES = [
     Rule('C07.H1', 'every raw destructive OS primitive call site lies in the owner module of its kind', h1, 8),
     Rule('C07.H2', 'in-crate positional write wrappers are called only by index-file builders, at constant offset 0, on the file they created', h2, 1),
     Rule('C07.H3', 'offsets of appends originate only in FileInner.size.fetch_add; the size counter is only loaded / fetch_add-ed', h3, 5),
     Rule('C07.H4', 'truncating create, remove and index-file creation act on paths derived from with_extension("index")', h4, 4),
     Rule('C07.H9', 'the tools never truncate their own input: in-place recovery renames first (C16.W3 instances)', h9, 2),
+    Rule('C07.H10', 'every file of the io layer takes the exclusive advisory lock', h10, 1),
     Rule('C07.H5', 'the call-graph closure of every query entry point contains no file mutator', h5, len(QUERY_ENTRIES)),
     Rule('C07.H6', 'next_blob_id is only loaded / fetch_add-ed; stores happen under &mut Storage and include failed-blob and quarantine-directory ids', h6, 3),
     Rule('C07.H6d', 'the id of a blob that failed to open is accounted on every path of the error arm of read_blobs', h6d, 1),
